@@ -530,8 +530,12 @@ func buildContractState(tx UpdateStateTx, fces []consensus.FileContractElementDi
 					V2FileContract: *rev,
 				})
 			}
+			// a contract can be revised and resolved in the same block, the
+			// diff then carries both the revision and the resolution
+			fallthrough
 		case res != nil:
 			switch res := res.(type) {
+			case nil: // revised, not resolved
 			case *types.V2FileContractRenewal:
 				state.RenewedV2 = append(state.RenewedV2, types.FileContractID(fce.ID))
 				log.Debug("renewed v2 contract", zap.Stringer("contractID", fce.ID))
